@@ -33,7 +33,8 @@
 //             boundaries come from N);  L = 5 for 1000 <= Max <= 65534;  L = 6 for the u16/i16 type limits,
 //             Max = 65535 (u16) and the syntax-only families. The two seq<> contexts are run for digit
 //             lengths <= 4 and for N only (direct context: all lengths).
-//   thorough: R = 5, D = 100; L one larger for the core families (5 / 7); seq<> contexts for all lengths.
+//   thorough: R = 5, D = 100; L one larger for the core families (5 / 7); seq<> contexts for digit lengths <= 5
+//             and N.
 //
 // Every case = (family, input) is run on an exact-size buffer that ends at a PROT_NONE page, through
 //   parse< R, A, normal, apply_mode, rewind_mode::required >             (cursor observed after failure)
@@ -763,7 +764,7 @@ int main( int argc, char** argv )
    const std::vector< std::string > basic_tr = { "", "x" };
    const std::vector< std::string > neigh_tr = { "", "x" };
 
-   vf::st.note = std::string( "exhaustive per family (" ) + std::to_string( g_fams.size() ) + " families = every integer.hpp rule/action x u8..u64/i8..i64 x Max lists): prefix+digits+trailer for ALL digit strings of length 0..L; quick L = 4 (8-bit and wider-than-16-bit limits, Max<1000), 5 (1000<=Max<=65534), 6 (u16/i16 type limits, Max 65535, syntax-only families); thorough: L+1 for the core families (syntax-only, type-limit, Max in {9,100,type max}); core families use 6 prefixes x 8 trailers up to digit length " + ( th ? "5" : "4" ) + ", everything else 3 signs x {end,'x'}; plus boundary neighbourhood list (" + std::to_string( neigh.size() ) + " numerals: 2^{7,8,15,16,31,32,63,64}+-" + std::to_string( D ) + ", 10^k+-1 k<=21, every Max+-2, each with a digit appended/prepended/replaced) x 3 signs x 2 trailers for every family; each case run direct + inside seq<R,eof> and seq<R,one<x>> (" + ( th ? "all lengths" : "digit length<=4 and neighbourhood list" ) + ") with rewind_mode::required on a guard-page-terminated exact-size buffer";
+   vf::st.note = std::string( "exhaustive per family (" ) + std::to_string( g_fams.size() ) + " families = every integer.hpp rule/action x u8..u64/i8..i64 x Max lists): prefix+digits+trailer for ALL digit strings of length 0..L; quick L = 4 (8-bit and wider-than-16-bit limits, Max<1000), 5 (1000<=Max<=65534), 6 (u16/i16 type limits, Max 65535, syntax-only families); thorough: L+1 for the core families (syntax-only, type-limit, Max in {9,100,type max}); core families use 6 prefixes x 8 trailers up to digit length " + ( th ? "5" : "4" ) + ", everything else 3 signs x {end,'x'}; plus boundary neighbourhood list (" + std::to_string( neigh.size() ) + " numerals: 2^{7,8,15,16,31,32,63,64}+-" + std::to_string( D ) + ", 10^k+-1 k<=21, every Max+-2, each with a digit appended/prepended/replaced) x 3 signs x 2 trailers for every family; each case run direct + inside seq<R,eof> and seq<R,one<x>> (" + ( th ? "digit length<=5 and neighbourhood list" : "digit length<=4 and neighbourhood list" ) + ") with rewind_mode::required on a guard-page-terminated exact-size buffer";
 
    long global = 0;
    long tick = 0;
@@ -792,7 +793,7 @@ int main( int argc, char** argv )
                   s.assign( p );
                   s.append( digs, size_t( len ) );
                   s.append( t );
-                  eval_case( f, s, th || len <= 4 );
+                  eval_case( f, s, len <= ( th ? 5 : 4 ) );
                   vf::count( "cases_exhaustive_digits" );
                   if( ( ++tick & 4095 ) == 0 && vf::out_of_time() ) stop = true;
                }
